@@ -325,7 +325,7 @@ class Engine:
             if not new and not s.D_grew and not s.wt_new:
                 if with_final: break
                 with_final = True
-            if rounds > 8: break
+            if rounds > 24: raise Unsupported('exploration fixpoint (may-written set / reader-writer sets) did not converge in 24 rounds')
             s.may_written |= new
             s.heap = heap0
             if hasattr(s, 'allocs'): del s.allocs[s.allocs_base:]
@@ -1503,6 +1503,24 @@ class Engine:
                 p.sp = (p.sp + 15) // 16 * 16; p.errno_addr = p.sp; p.sp += 16; p.mem.store(p.errno_addr, 4, 0)
             return p.errno_addr
         if n in ('vf_yield', 'vf_usleep', 'sched_yield', 'usleep'): return 0
+        if n in ('memcmp', 'bcmp'):
+            ln = a[2]
+            if not is_c(ln): raise Unsupported('symbolic memcmp length')
+            r = 0
+            for i in reversed(range(ln)):
+                x, _ = s.shared_load(p, s.add64(a[0], i), 1, 'na', ins.text); y, _ = s.shared_load(p, s.add64(a[1], i), 1, 'na', ins.text)
+                if is_c(x) and is_c(y): r = r if x == y else ((1 if x > y else -1) & mask(32))
+                else: r = s.ite(s.icmp('eq', x, y, 8), r, s.ite(s.icmp('ugt', x, y, 8), 1, mask(32), IntTy(32)), IntTy(32))
+            return r
+        if n == 'strlen':
+            k = 0
+            while True:
+                x, _ = s.shared_load(p, s.add64(a[0], k), 1, 'na', ins.text)
+                if not is_c(x): raise Unsupported('symbolic strlen')
+                if x == 0: return k
+                k += 1
+        if n in ('nanosleep',): return 0
+        if n in ('_ZNSt8ios_base4InitC1Ev', '_ZNSt8ios_base4InitD1Ev'): return 0
         if n == 'sysconf': return 4096
         if n == '_ZNSt3pmr19new_delete_resourceEv': return 0x7100      # opaque default upstream (harnesses install their own)
         if n in ('pthread_mutex_lock', 'pthread_mutex_trylock'):
@@ -1606,6 +1624,8 @@ class Engine:
         if n == 'vf_now_ns' or n == '_ZN4absl7debian319GetCurrentTimeNanosEv':
             if s.phase == 'init': return 1000 * 1000000000
             return s.time_event(p, ins.text)
+        if n == '_ZSt21__glibcxx_assert_failPKciS0_S0_':
+            s.asserts.append((list(p.pc), z3.BoolVal(False), 'libstdc++ assertion failed: ' + ins.text[:50], s.tid)); return 'end'
         if n.startswith('_ZN6google8protobuf8internal10LogMessageC'):       # GOOGLE_CHECK / GOOGLE_LOG(FATAL) reached
             s.asserts.append((list(p.pc), z3.BoolVal(False), 'protobuf CHECK failed: ' + ins.text[:50], s.tid)); return 'end'
         if n in ('abort', '__assert_fail', 'llvm.trap', '_ZSt9terminatev', '_ZSt25__throw_bad_function_callv', '__cxa_pure_virtual'):
